@@ -63,11 +63,43 @@ def run(ctx):
             direct.append("driver failure: " + h.strip()[:300])
     bad = [v for v in verdicts if not v.startswith("ACCEPT")]
     # the same acceptor on the dependency events of driven scheduler runs (the real usage context)
-    agg, _, _ = sc.run_sweeps(ctx, [("sched", 161, 250 if ctx.quick else 5000, ["txs=2..8", "workers=1,2,3"])])
+    agg, _, _ = sc.run_sweeps(ctx, [
+        ("sched", 161, 250 if ctx.quick else 5000, ["txs=2..8", "workers=1,2,3"]),
+        # blockers that finish while a waiter registers, validators frozen between claiming and validating
+        ("sched-late", 162, 500 if ctx.quick else 8000, ["txs=3..8", "workers=2,3,4", "opts=shared,chain", "strat=slowdb"]),
+    ])
+    # usage rule of the graph (property text: a blocked transaction is re-offered as soon as its blocker
+    # "is found already past execution"): a cursor claim of a transaction that is past execution
+    # (Executed, Validating, Unconfirmed, Final) must release its waiters - remove(j, false) - at once;
+    # only a claim of a transaction that is being executed may be dropped.
+    dropped = []
+    for sub in ("sched", "sched-late"):
+        for tr in sorted(glob.glob(os.path.join(ctx.work, sub, "trace-*.txt"))):
+            pending = {}
+            for ln, l in enumerate(open(tr)):
+                t = l.split()
+                if len(t) < 3 or t[0] == "#":
+                    continue
+                tid, kind = t[0], t[1]
+                if kind == "exec_claim":
+                    if tid in pending:
+                        dropped.append((tr, pending.pop(tid)))
+                    if t[3] in ("2", "3", "4", "6"):
+                        pending[tid] = (ln, t[2], t[3])
+                elif kind.startswith("dep_") and tid in pending:
+                    p_ln, j, stc = pending.pop(tid)
+                    if not (kind == "dep_remove_begin" and t[2] == j and t[3] == "0"):
+                        dropped.append((tr, (p_ln, j, stc)))
+                elif kind == "thread_end" and tid in pending:
+                    dropped.append((tr, pending.pop(tid)))
+    claims_past_execution = 0
+    for sub in ("sched", "sched-late"):
+        for tr in glob.glob(os.path.join(ctx.work, sub, "trace-*.txt")):
+            claims_past_execution += sum(1 for l in open(tr) if " exec_claim " in l and l.split()[3] in ("2", "3", "4", "6"))
     sched_bad, sched_ok = [], 0
     allt = os.path.join(ctx.work, "sched-dep.txt")
     with open(allt, "w") as f:
-        for tr in sorted(glob.glob(os.path.join(ctx.work, "sched", "trace-*.txt"))):
+        for tr in sorted(glob.glob(os.path.join(ctx.work, "sched", "trace-*.txt")) + glob.glob(os.path.join(ctx.work, "sched-late", "trace-*.txt"))):
             lines = open(tr).read().splitlines()
             hdr = next(l for l in lines if l.startswith("# n="))
             f.write("# case sched %s file=%s\n" % (hdr[2:], os.path.basename(tr)))
@@ -80,6 +112,13 @@ def run(ctx):
             sched_ok += 1  # final snapshot of the private graph is not available there: STATE-MISMATCH lines count as accepted traces
     stalls = [c for c in agg["driver_failure"]]
     broken = list(proof["problems"])
+    if dropped and not (direct or stalls):
+        tr, (p_ln, j, stc) = dropped[0]
+        cno = re.findall(r"trace-(\d+)", tr)[0]
+        hdr = [l.strip() for l in open(os.path.join(os.path.dirname(tr), "summary.txt")) if l.startswith("case %s " % cno)]
+        ctx.violation("a cursor claim found transaction %s already past execution (status code %s) and was dropped without releasing its waiters: they stay blocked until the committed prefix reaches them" % (j, stc),
+                      dict(trace=tr, line=p_ln, header=hdr, more=len(dropped) - 1, seed=ctx.seed,
+                           replay="the (block, schedule) pair of the trace file: target/release/e2e one <block_seed> <sched_seed> <outdir> <opts of the sweep>"), True)
     if direct or stalls:
         what = "a transaction is left blocked / unclaimable although its blocker resolved"
         ctx.violation(what, dict(cases=(direct[:3] or [stalls[0]["failure"], sc.replay_cmd(stalls[0])]), replay="target/release/depobj %d %d <out>" % (ctx.seed, n), seed=ctx.seed), True)
@@ -101,6 +140,7 @@ def run(ctx):
         traces_validated_against_impl=kinds.get("ACCEPT", 0) + sched_ok,
         rule="2-3 threads run random add / remove / commit / key_tx / next on the real TxDependency (2-4 txs) under the deterministic driver; each trace is replayed by the extracted Coq acceptor and the model's final (onboard, dependency, affects, cursor) is compared with a snapshot of the real object; direct predicates at quiescence; plus the dependency events of driven scheduler runs through the same acceptor. non-trivial = distinct trace with a release and a key_tx",
         acceptor_verdicts=kinds, scheduler_traces=sched_ok, op_counts=ops,
+        claims_of_transactions_past_execution=claims_past_execution, of_which_dropped_without_release=len(dropped),
         release_actions={"stale_edge": rel[0], "cleared_only": rel[1], "handed_over": rel[2], "cursor_rewound": rel[3]},
         samples=[traces[i] for i in range(min(2, len(traces)))],
     )
